@@ -13,7 +13,8 @@ What is modelled, and where it lives in the code:
   (`yaml_io._repository`) and the data-directory cache (`DataDir._data_dir_cached`);
 * the five operations of the property's quantifier: `Load` (by builtin name: consults and fills the data-dir cache;
   by explicit path: does not), `GetDescriptors`, `Estimate`, an evaluation `get_*` with or without the elemental
-  reference (`S_elements=True`, group_data.py:89-103), `Update` (merge).
+  reference (`S_elements=True`, group_data.py:89-103), `Update` (merge: all-or-nothing since the repair of FA1 — a refused
+  merge leaves the destination, its provenance included, as it was).
 
 Everything numeric / chemical is a parameter (`World`): what loading a directory yields, what a scheme says about a
 molecule, what an evaluation of given data returns, what a merge of two data sets yields.  The model's content is
@@ -59,8 +60,11 @@ structure World (Scheme Data Val : Type) where
   /-- an evaluation of an estimate: data snapshot at creation, data now, descriptor mapping, temperature, quantity, and —
   only when the elemental reference is requested — the molecule name the estimate remembered -/
   evalF : (snap now : Data) → Descr → Temp → Qty → Option (Option Mol) → Except Code Val
-  /-- `dst.Update(src, overwrite)`: the data of `dst` afterwards (also when it raises) and the error class if it raised -/
-  mergeF : Data → Data → Bool → Data × Option Code
+  /-- `dst.Update(src, overwrite)`: refused with an error class, or the data of `dst` afterwards.  A refused `Update` has
+  stored nothing: the method first finds out — on copies — whether every group merges, and stores only then (Library.py
+  `Update`, after the repair of finding FA1; proved of the model of the method in `PGA.Merge.C13_libUpdate_atomic`; checked
+  on the real objects by `rejected_merge` in harness/c15.py) -/
+  mergeF : Data → Data → Bool → Except Code Data
 
 structure Lib (Scheme Data : Type) where
   scheme : Scheme
@@ -154,9 +158,20 @@ def step (W : World Scheme Data Val) (s : State Scheme Data) : Op → State Sche
   | .merge dst src ow =>
     match s.libs[dst]?, s.libs[src]? with
     | some a, some b =>
-      let r := W.mergeF a.data b.data ow
-      ({ s with libs := s.libs.set dst { a with data := r.1, prov := .merged a.prov b.prov ow } }, .merged r.1 r.2)
+      match W.mergeF a.data b.data ow with
+      | .error c => (s, .merged a.data (some c))       -- refused: nothing was stored, the library is what it was
+      | .ok d => ({ s with libs := s.libs.set dst { a with data := d, prov := .merged a.prov b.prov ow } }, .merged d none)
     | _, _ => (s, .badRef)
+
+/-- the merge step as it was before the repair of FA1, for the witness in `Props/C15`: `GroupLibrary.Update` merged group
+by group in place, so `mergeOld` yields the data of `dst` afterwards *also when it raises* -/
+def stepMergeOld (mergeOld : Data → Data → Bool → Data × Option Code) (s : State Scheme Data) (dst src : Nat) (ow : Bool) :
+    State Scheme Data × Out Data Val :=
+  match s.libs[dst]?, s.libs[src]? with
+  | some a, some b =>
+    let r := mergeOld a.data b.data ow
+    ({ s with libs := s.libs.set dst { a with data := r.1, prov := .merged a.prov b.prov ow } }, .merged r.1 r.2)
+  | _, _ => (s, .badRef)
 
 /-- a history from a given state: final state and the outputs in order -/
 def run (W : World Scheme Data Val) (s : State Scheme Data) : List Op → State Scheme Data × List (Out Data Val)
